@@ -28,6 +28,9 @@ type c12Case struct {
 	Red     int        `json:"redundancy"`
 	Inserts int        `json:"inserts"`
 	Faults  []c12Fault `json:"faults"`
+	// LateTB: the cluster starts with table ta only; the fault "add-tb" adds tb (other partition key) to every node
+	// while the followers are already following
+	LateTB bool `json:"late_tb,omitempty"`
 }
 
 // fault alphabet
@@ -54,7 +57,12 @@ func c12Run(c *fw.Ctx, cs c12Case) {
 	base := newDir(c)
 	defer removeDir(base)
 	tables := c12Tables()
-	cl, err := cluster.Start(base+"/cluster", cluster.Config{Tables: tables, NumPartitions: 2, Leaders: cs.Leaders, Redundancy: cs.Red})
+	allTables := tables
+	tbAdded := !cs.LateTB
+	if cs.LateTB {
+		tables = tables[:1]
+	}
+	cl, err := cluster.Start(base+"/cluster", cluster.Config{Tables: append([]dbdrv.TableDef(nil), tables...), NumPartitions: 2, Leaders: cs.Leaders, Redundancy: cs.Red})
 	if err != nil {
 		c.Incomplete("cluster start: " + err.Error())
 		return
@@ -74,7 +82,33 @@ func c12Run(c *fw.Ctx, cs c12Case) {
 	pts := c12Points()[:cs.Inserts]
 	images := map[int]string{}
 	harnessFail := ""
+	addTB := func() {
+		if tbAdded {
+			return
+		}
+		tbAdded = true
+		if err := cl.AddTable(allTables[1]); err != nil {
+			harnessFail = "add table: " + err.Error()
+			return
+		}
+		var st []dbdrv.TableDef
+		for _, t := range allTables {
+			t.PartitionBy = nil
+			st = append(st, t)
+		}
+		if err := sdb.Alter(dbdrv.Config{Tables: st}); err != nil {
+			harnessFail = "standalone add table: " + err.Error()
+		}
+	}
 	apply := func(ft c12Fault) {
+		if ft.Kind == "add-tb" {
+			addTB()
+			c.Transition(1)
+			if harnessFail == "" && !cl.Quiesce() {
+				harnessFail = "quiescence timeout after add-tb"
+			}
+			return
+		}
 		if ft.F >= len(cl.Followers) {
 			return
 		}
@@ -196,6 +230,11 @@ func c12Run(c *fw.Ctx, cs c12Case) {
 			f.SetEager(l, true)
 		}
 	}
+	addTB()
+	if harnessFail != "" {
+		c.Incomplete(harnessFail + fmt.Sprintf(" (case %+v)", cs))
+		return
+	}
 	if !cl.Quiesce() {
 		c.Incomplete(fmt.Sprintf("quiescence timeout after healing (case %+v)", cs))
 		return
@@ -206,7 +245,11 @@ func c12Run(c *fw.Ctx, cs c12Case) {
 		for _, ft := range cs.Faults {
 			fs = append(fs, fmt.Sprintf("%s(F%d)@%d", ft.Kind, ft.F, ft.Pos))
 		}
-		return fmt.Sprintf("leaders=%d followers/partition=%d inserts=%d faults [%s]", cs.Leaders, cs.Red, cs.Inserts, strings.Join(fs, " "))
+		late := ""
+		if cs.LateTB {
+			late = " (cluster started with ta only)"
+		}
+		return fmt.Sprintf("leaders=%d followers/partition=%d inserts=%d faults [%s]%s", cs.Leaders, cs.Red, cs.Inserts, strings.Join(fs, " "), late)
 	}
 	for _, tn := range []string{"ta", "tb"} {
 		st, err := sdb.Query("SELECT * FROM "+tn, true)
@@ -320,7 +363,7 @@ func init() {
 		Level:       "model_checking",
 		NoThreads:   true,
 		Pre:         c12RunTLC,
-		Rule:        "in-process cluster (1-2 leaders, 2 partitions, 1-2 followers per partition), two tables on one stream with different partition keys (ta by x; tb by y with a WHERE) so that per-table offsets on a follower diverge; base schedule of 3 (quick) / 4 (thorough) inserts delivered eagerly plus every placement of <=2 (quick) / <=3 on the focus follower (thorough) fault events {flush ta only, flush all, clean stop/start, crash (restart from the directory image of that instant), cut, reconnect, gate (delay), ungate, restart leader, snapshot, restore (restart from the older image)} at every position, enabledness respected; every event runs to exact quiescence; at the end all nodes are healed and caught up; oracle: per table the rows summed over partitions equal a standalone DB fed the same points (no point lost, none applied twice), redundant followers identical, leader queries equal standalone; non-trivial = schedule with a fault after the first insert",
+		Rule:        "in-process cluster (1-2 leaders, 2 partitions, 1-2 followers per partition), two tables on one stream with different partition keys (ta by x; tb by y with a WHERE) so that per-table offsets on a follower diverge; base schedule of 3 (quick) / 4 (thorough) inserts delivered eagerly plus every placement of <=2 (quick) / <=3 on the focus follower (thorough) fault events {flush ta only, flush all, clean stop/start, crash (restart from the directory image of that instant), cut, reconnect, gate (delay), ungate, restart leader, snapshot, restore (restart from the older image)} at every position, plus the same with tb added to every node while the followers are already following (late subscription) at every position, alone and with every single fault before or after it, enabledness respected; every event runs to exact quiescence; at the end all nodes are healed and caught up; oracle: per table the rows summed over partitions equal a standalone DB fed the same points (no point lost, none applied twice), redundant followers identical, leader queries equal standalone; non-trivial = schedule with a fault after the first insert",
 		Assumptions: []string{"reconnect policy of server.followSource re-implemented in the cluster driver (same Follow request, EarliestOffset advanced to the last inserted entry)", "a crash image is taken at quiescence (no kill instants inside a flush; those are C02's subject)"},
 		Shards:      func(tier string) int { return 16 },
 		Budget: func(tier string) time.Duration {
@@ -408,6 +451,53 @@ func init() {
 					}
 					if !run(cf, seq) {
 						return
+					}
+				}
+			}
+			// a table with another partition key added while the followers are already following: at every position,
+			// alone and combined with every single fault before or after it
+			lateRun := func(cf cfg, seq []c12Fault) bool {
+				if !c12Enabled(seq) {
+					return true
+				}
+				idx++
+				if !c.Mine(idx) {
+					return true
+				}
+				if c.Expired() {
+					c.Incomplete("time budget used up")
+					return false
+				}
+				cs := c12Case{Leaders: cf.leaders, Red: cf.red, Inserts: inserts, Faults: seq, LateTB: true}
+				c.Eval(1)
+				c.Trace(1)
+				c.State(fmt.Sprint(cs))
+				c.Nontrivial(fmt.Sprint(cs))
+				c.Sample("late-table", cs)
+				c12Run(c, cs)
+				return true
+			}
+			for pos := 0; pos <= inserts; pos++ {
+				add := c12Fault{pos, "add-tb", 0}
+				for _, cf := range append([]cfg{cfgs[0]}, cfg{2, 1}, cfg{1, 2}) {
+					if !lateRun(cf, []c12Fault{add}) {
+						return
+					}
+				}
+				for _, o := range single {
+					var seq []c12Fault
+					if o.Pos < pos {
+						seq = []c12Fault{o, add}
+					} else {
+						seq = []c12Fault{add, o}
+					}
+					if !lateRun(cfgs[0], seq) {
+						return
+					}
+					if o.Pos == pos {
+						if !lateRun(cfgs[0], []c12Fault{o, add}) {
+							return
+						}
 					}
 				}
 			}
